@@ -8,6 +8,7 @@ pub mod hasher;
 pub mod memsim;
 pub mod memoracle;
 pub mod memchecks;
+pub mod memrace;
 pub mod evmodel;
 pub mod evcheck;
 pub mod fetchsim;
@@ -36,6 +37,7 @@ use common::{Failure, ReplayFile, Tier, case_from};
 pub fn dispatch(prop: &str, tier: Tier, seed: u64) -> i32 {
     match prop {
         "C01" => hybchecks::check_c01(tier, seed),
+        "C02" => memrace::check_c02(tier, seed),
         "C03" => c03check::check_c03(tier, seed),
         "C04" => c04check::check_c04(tier, seed),
         "C05" => memchecks::check_c05(tier, seed),
@@ -64,6 +66,7 @@ pub fn replay(rf: &ReplayFile) -> anyhow::Result<Option<Failure>> {
     let r = match (rf.property.as_str(), rf.sub.as_str()) {
         ("C05", "capdist") => memchecks::exec_capdist(&case_from(rf)?).failure,
         ("C01", _) => hybchecks::exec_c01(&case_from(rf)?).failure,
+        ("C02", _) => memrace::exec_case(&case_from(rf)?).failure,
         ("C06", _) => fetchcheck::exec_fetch(fetchcheck::Which::C06, &case_from(rf)?).failure,
         ("C11", _) => fetchcheck::exec_fetch(fetchcheck::Which::C11, &case_from(rf)?).failure,
         ("C17", "hybrid-collide") => c17check::replay_hybrid(case_from(rf)?),
